@@ -385,7 +385,12 @@ cmd_lattice(const char *tag, int with_scores)
         return;
     }
     dag2 = decoder_lattice(d);
+    /* ... and once more while the caller holds a reference of its own (the documented way of keeping a lattice) */
+    lattice_retain(dag);
+    if (dag2 == dag)
+        dag2 = decoder_lattice(d);
     emit_lattice_fields(dag, dag2, with_scores);
+    lattice_free(dag);
     fprintf(vt_out, "}\n");
 }
 
